@@ -35,6 +35,61 @@ pub fn ascii_to_lowercase(s: &str) -> String {
     unsafe { String::from_utf8_unchecked(v) }
 }
 
+/// Stub for `str::to_lowercase` exact on ASCII + Latin-1 Supplement input (U+0000..U+00FF): ASCII letters, and U+00C0..U+00DE except
+/// U+00D7 (bytes C3 80..9E except C3 97) map to the code point 0x20 above; everything else in that range is its own lower case.
+#[cfg(kani)]
+pub fn latin1_to_lowercase(s: &str) -> String {
+    let mut v = s.as_bytes().to_vec();
+    let mut i = 0;
+    while i < v.len() {
+        if v[i] < 128 {
+            v[i] = v[i].to_ascii_lowercase();
+        } else if v[i] == 0xC3 && i + 1 < v.len() {
+            if v[i + 1] >= 0x80 && v[i + 1] <= 0x9E && v[i + 1] != 0x97 { v[i + 1] += 0x20; }
+            i += 1;
+        }
+        i += 1;
+    }
+    unsafe { String::from_utf8_unchecked(v) }
+}
+
+/// the same rule, restated for the oracle: equality of two Latin-1 strings ignoring case
+#[cfg(kani)]
+pub fn eq_ignore_latin1_case(a: &str, b: &str) -> bool {
+    let (a, b) = (a.as_bytes(), b.as_bytes());
+    if a.len() != b.len() { return false; }
+    let low = |x: u8, after_c3: bool| -> u8 {
+        if after_c3 { if x >= 0x80 && x <= 0x9E && x != 0x97 { x + 0x20 } else { x } } else { x.to_ascii_lowercase() }
+    };
+    let mut i = 0;
+    while i < a.len() {
+        let c3 = i > 0 && a[i - 1] == 0xC3 && b[i - 1] == 0xC3;
+        if low(a[i], c3) != low(b[i], c3) { return false; }
+        i += 1;
+    }
+    true
+}
+
+/// an arbitrary string of at most N bytes that starts with one character of U+00C0..U+00FF (bytes C3 80..BF) followed by ASCII
+/// (byte positions stay concrete: a symbolic mix of 1- and 2-byte characters at symbolic offsets is beyond CBMC's reach here)
+#[cfg(kani)]
+pub fn any_latin1_then_ascii<const N: usize>(buf: &mut [u8; N]) -> &str {
+    let len: usize = kani::any();
+    kani::assume(len >= 2 && len <= N);
+    buf[0] = 0xC3;
+    let c: u8 = kani::any();
+    kani::assume(c >= 0x80 && c <= 0xBF);
+    buf[1] = c;
+    let mut i = 2;
+    while i < N {
+        let c: u8 = kani::any();
+        kani::assume(c < 128);
+        buf[i] = c;
+        i += 1;
+    }
+    unsafe { core::str::from_utf8_unchecked(&buf[..len]) }
+}
+
 /// an arbitrary ASCII string of at most N bytes
 #[cfg(kani)]
 pub fn any_ascii<const N: usize>(buf: &mut [u8; N]) -> &str {
@@ -126,6 +181,51 @@ def enum_shape(name, variants, maxlen=None, quick=True):
                  exercises=["impl/src/from_str.rs::enum_from", "src/str.rs::FromStrError"], quick=quick)
 
 
+def latin1_enum_shape():
+    """variant names with non-ASCII cased letters: the input must be lower-cased the way the names were at expansion time"""
+    variants = ["Üb", "ÜB", "Öl", "Ab"]
+    decl = "#[derive(Clone, Copy, PartialEq, Debug, derive_more::FromStr)]\npub enum E {\n%s\n}" % "\n".join("    %s," % v for v in variants)
+    src = """    #[kani::proof]
+    #[kani::unwind(12)]
+    #[kani::stub(str::to_lowercase, latin1_to_lowercase)]
+    fn matches_latin1_variant_names() {
+        // exactly two characters: one of U+00C0..U+00FF, then one ASCII byte (fixed length: a symbolic length on top makes the
+        // instance 68 M clauses / > 12 GB; this one is decided in seconds)
+        let c: u8 = kani::any();
+        let y: u8 = kani::any();
+        kani::assume(c >= 0x80 && c <= 0xBF && y < 128);
+        let b1 = [0xC3u8, c, y];
+        let s = unsafe { core::str::from_utf8_unchecked(&b1) };
+        let want: Option<E> = if s == "Üb" { Some(E::Üb) } else if s == "ÜB" { Some(E::ÜB) }
+            else if eq_ignore_latin1_case(s, "Öl") { Some(E::Öl) } else if s.eq_ignore_ascii_case("Ab") { Some(E::Ab) } else { None };
+        let got = E::from_str(s);
+        match (got, want) {
+            (Ok(g), Some(w)) => assert!(g == w, "parsed to the wrong variant"),
+            (Ok(_), None) => assert!(false, "accepted a string that is no variant name"),
+            (Err(_), Some(_)) => assert!(false, "rejected a string that names a variant"),
+            (Err(_), None) => {}
+        }
+        kani::cover!(matches!(want, Some(E::Öl)) && s != "Öl", "reach a case-insensitive non-ASCII match");
+        kani::cover!(want.is_none(), "reach a rejection");
+    }
+    #[kani::proof]
+    #[kani::unwind(12)]
+    #[kani::stub(str::to_lowercase, latin1_to_lowercase)]
+    fn own_latin1_names_parse_back() {
+        assert!(E::from_str("Üb") == Ok(E::Üb), "variant Üb does not parse from its own name");
+        assert!(E::from_str("ÜB") == Ok(E::ÜB), "variant ÜB does not parse from its own name");
+        assert!(E::from_str("Öl") == Ok(E::Öl) && E::from_str("öL") == Ok(E::Öl) && E::from_str("ÖL") == Ok(E::Öl), "Öl must match ignoring case");
+        assert!(E::from_str("üb").is_err(), "in a case-colliding group only the exact names match");
+        kani::cover!(true, "reach end");
+    }
+"""
+    hs = [Harness("matches_latin1_variant_names", "the string: one character of U+00C0..U+00FF followed by one ASCII byte (64 x 128 strings)", covers=2, unwind=12,
+                  asserts="from_str(s) is Ok(V) iff s equals V's name (ignoring case, incl. the non-ASCII letters, when unique; exactly otherwise)"),
+          Harness("own_latin1_names_parse_back", "none (concrete)", covers=1, unwind=12, asserts="non-ASCII variant names parse back; other casings of a unique name match")]
+    return Shape("c13_enum_latin1_names", module(decl, src), hs, decl.replace("\n", " "),
+                 exercises=["impl/src/from_str.rs::enum_from (expansion-time vs run-time lower-casing)"])
+
+
 def error_text_shape():
     decl = "#[derive(Clone, Copy, PartialEq, Debug, derive_more::FromStr)]\npub enum Colour { Red, Green }"
     src = """    #[kani::proof]
@@ -153,6 +253,7 @@ def shapes(tier):
            enum_shape("raw_ident", ["r#fn", "r#Type", "Plain"]),
            enum_shape("raw_ident_case_group", ["r#type", "Type", "r#fn", "FN", "Mod"]),
            enum_shape("prefixes", ["Ab", "Abc", "ABCD", "abcd"]),
+           latin1_enum_shape(),
            error_text_shape()]
     if tier == "quick":
         out = [s for s in out if s.quick]
@@ -165,9 +266,9 @@ DESCRIPTION = {
             "with a case clash, names with digits, raw-identifier names, names that are prefixes of each other",
     "symbolic": "the string: every ASCII string of <= L bytes, L = longest variant name + 1 (4..6)",
     "oracle": "inner from_str mapped through the constructor; for enums the documented rule restated with eq_ignore_ascii_case",
-    "not_covered": ["non-ASCII input (U+212A KELVIN SIGN lower-cases to `k`): outside the ASCII assumption", "strings longer than L"],
+    "not_covered": ["input outside ASCII + Latin-1 (U+212A KELVIN SIGN lower-cases to `k`; final sigma; expanding case mappings)", "strings longer than L"],
 }
-ASSUMPTIONS = ["input strings are ASCII (bytes < 128)",
+ASSUMPTIONS = ["input strings are ASCII (bytes < 128); in shape c13_enum_latin1_names: characters up to U+00FF, with a to_lowercase stub exact on that range",
                "stub: `str::to_lowercase` is replaced (kani -Z stubbing) by an ASCII lower-casing model, exact on ASCII input; "
                "the call itself - that the expansion lower-cases the input and matches it against lower-cased names - is real code"]
 HARNESS_TIMEOUT = {"quick": 600, "thorough": 1800}
